@@ -144,6 +144,12 @@ def run(chk, repo, tier):
                     and b.get('rho') == S('rho') and b.get('theta') == S('theta')
                 det = f'summand coeffs[{fmt(k)}] * zernike(index={fmt(b.get("index"))}, normalize={fmt(b.get("normalize"))}, ' \
                       f'rho={fmt(b.get("rho"))}, theta={fmt(b.get("theta"))})'
+    from .c11 import _new_private
+    delegated = [str(e.data.get('callee')) for p in returns(paths) for e in p.events
+                 if e.kind == 'call' and _new_private(repo, str(e.data.get('callee')))]
+    no_acc = not any(e.data.get('how') == 'augassign' and e.in_loop for p in returns(paths) for e in p.writes())
+    if not ok and no_acc and delegated:
+        ok, det = None, f'undecided: the terms are produced by {delegated[0]}, which is not followed'
     chk.ob('C12-d', 'N-index', fcomp.key, 'coefficient k <-> Noll index k+1', ok, det, fcomp.loc())
     # every term of the composition is a coefficient times the mode as `zernike` evaluates it (boolean support, caller's
     # coordinates and normalisation) - the modes the fit projects onto: a term built some other way (piston as coeff * mask
@@ -191,6 +197,15 @@ def run(chk, repo, tier):
                 ma = mode.single_atom() if isinstance(mode, Poly) else None
                 ok = ma is not None and ma[0] == 'idx' and ma[2] == kitem and b.get('mask') == S('mask') \
                     and b.get('normalize') == S('normalize') and b.get('rho') == S('rho') and b.get('theta') == S('theta')
+                if not ok and ma is not None and ma[0] == 'idx' and isinstance(ma[1], tuple) and ma[1][0] == 'attr' and ma[1][2] == 'flat':
+                    # walked in step: position k of np.ndindex(*x.shape) is where x.flat[k] sits (both in C order)
+                    import re as _re
+                    x_ = fmt(Poly.atom(ma[1][1]))
+                    want_key = f'numpy.ndindex(starred({x_}.shape))[{fmt(ma[2])}]'
+                    if fmt(kitem) == want_key and b.get('mask') == S('mask') and b.get('normalize') == S('normalize') \
+                            and b.get('rho') == S('rho') and b.get('theta') == S('theta'):
+                        ok = True
+                        ma = ('idx', ma[1][1], ma[2])
                 det_p = f'basis[{fmt(key)}] = zernike(index={fmt(mode)}, normalize={fmt(b.get("normalize"))}, ' \
                         f'rho={fmt(b.get("rho"))}, theta={fmt(b.get("theta"))})'
                 if ok and not is_modes(ma[1]):
@@ -273,7 +288,8 @@ def run(chk, repo, tier):
                 if not exact:
                     skip_bad.append('a step adds nothing when ' + ' & '.join(f'{"" if pol else "not "}{fmt(c)[:60]}' for c, pol, _ in conds))
     chk.ob('C12-d', 'D-dominance', fcomp.key, 'every coefficient contributes (a term is skipped only for an exactly zero coefficient)',
-           (not skip_bad) if n_loops else None, '; '.join(sorted(set(skip_bad))[:2]) or f'{n_loops} loop(s), every step accumulates', fcomp.loc())
+           (not skip_bad) if (n_loops and not (no_acc and delegated)) else None,
+           '; '.join(sorted(set(skip_bad))[:2]) or f'{n_loops} loop(s), every step accumulates', fcomp.loc())
     # exact recovery for every linearly independent mode set: no singular value is discarded beyond rounding level
     cut_ok, det_c, n_inv = True, '', 0
     for p in rets:
